@@ -108,6 +108,19 @@ static int apply(sess *S, int ev, int judge, vres *r, uint64_t *dofact_ref)
     WK_ADD(C_CALLS, 1);
     dn_to_dense(&s->B, &B_after);
     long info = s->info;
+    if (wk_verbose) {
+        fprintf(stderr, "--- event %d (kind %d, values v%d): info=%ld\n", ev, kind, v, info);
+        dmat Ad; xs_current_A(s, &Ad); dmat_print("A", &Ad);
+        fprintf(stderr, "perm_c:"); for (int i = 0; i < n; i++) fprintf(stderr, " %d", s->perm_c[i]);
+        fprintf(stderr, "\nperm_r before:"); for (int i = 0; i < n; i++) fprintf(stderr, " %d", rp_before[i]);
+        fprintf(stderr, "\nperm_r after: "); for (int i = 0; i < n; i++) fprintf(stderr, " %d", s->perm_r[i]); fprintf(stderr, "\n");
+        if (s->have_LU) { const SCformat *Ls = s->L.Store; const NCformat *Us = s->U.Store;
+            fprintf(stderr, "nsuper=%ld sup_to_col:", (long)Ls->nsuper); for (int q = 0; q <= Ls->nsuper + 1; q++) fprintf(stderr, " %d", Ls->sup_to_col[q]);
+            fprintf(stderr, "\nrowind_colptr:"); for (int j = 0; j <= n; j++) fprintf(stderr, " %ld", (long)Ls->rowind_colptr[j]);
+            fprintf(stderr, "\nrowind:"); for (long k = 0; k < Ls->rowind_colptr[n]; k++) fprintf(stderr, " %ld", (long)Ls->rowind[k]);
+            fprintf(stderr, "\nU colptr:"); for (int j = 0; j <= n; j++) fprintf(stderr, " %ld", (long)Us->colptr[j]);
+            fprintf(stderr, "\nU rowind:"); for (long k = 0; k < Us->colptr[n]; k++) fprintf(stderr, " %ld", (long)Us->rowind[k]); fprintf(stderr, "\n"); }
+    }
     if (kind != 3) { S->ok = s->ilu ? (info >= 0 && info <= n + 1) : (info == 0); S->last_fact = kind; S->fact_info = info; }
     if (!judge) return 0;
     WK_COUNT(C_EV0 + kind);
